@@ -1,7 +1,7 @@
 """C16 -- when an input ends every output is finalised once and the name starts clean
 (spec/Lifecycle.tla with every output enabled, and its idle sweep with wire publishers + spec/Fanout.tla across publisher epochs for RTMP / HTTP-FLV consumers +
 spec/Republish.tla across publisher epochs for HTTP-TS / HLS / RTSP consumers)."""
-from props.lifecycle_common import run_lifecycle
+from props.lifecycle_common import run_lifecycle, DIRECTED_F3
 from props.fanout_common import run_fanout
 from props.republish_common import run_republish
 from props.c10 import run_cleanup
@@ -10,13 +10,16 @@ from props.c10 import run_cleanup
 def run(ctx):
     if ctx.quick:
         run_lifecycle(ctx, bfs=[("F1", 2, 0), ("S1", 2, 0), ("S2", 2, 0), ("S3", 2, 0)], emit=[("S0", 1, 0), ("H0", 1, 0)],
-                      sim=[("F1", 4, 0, 250, 18), ("S1", 3, 0, 150, 18), ("S2", 3, 0, 100, 18), ("S3", 3, 0, 150, 18), ("F2", 4, 3, 150, 16)], leak=("F1", 40))
+                      sim=[("F1", 4, 0, 250, 18), ("S1", 3, 0, 150, 18), ("S2", 3, 0, 100, 18), ("S3", 3, 0, 150, 18), ("F2", 4, 3, 150, 16),
+                           # relay-push sessions are closed when the input leaves, and none is left behind by the next publisher
+                           ("U1", 3, 3, 60, 14)], leak=("F1", 40), directed=DIRECTED_F3)
         run_fanout(ctx, bfs=[("A", 4, 2)], emit=[], sim=[("A", 10, 3, 150, 18), ("D", 10, 3, 150, 18)])
         run_republish(ctx)
         run_cleanup(ctx)
     else:
         run_lifecycle(ctx, bfs=[("F1", 3, 0), ("S1", 3, 0), ("S2", 3, 0), ("S3", 3, 0)], emit=[("F1", 1, 0), ("S0", 2, 0), ("H0", 2, 0)],
-                      sim=[("F1", 6, 0, 3000, 26), ("S1", 5, 0, 1500, 24), ("S2", 5, 0, 1000, 24), ("S3", 5, 0, 1500, 24), ("F2", 5, 4, 1500, 22), ("H1", 5, 0, 1000, 24), ("F3", 5, 4, 1000, 22)], leak=("F1", 200))
+                      sim=[("F1", 6, 0, 3000, 26), ("S1", 5, 0, 1500, 24), ("S2", 5, 0, 1000, 24), ("S3", 5, 0, 1500, 24), ("F2", 5, 4, 1500, 22), ("H1", 5, 0, 1000, 24), ("F3", 5, 4, 1000, 22),
+                           ("U1", 5, 5, 400, 20), ("U2", 5, 5, 300, 20)], leak=("F1", 200), directed=DIRECTED_F3)
         run_fanout(ctx, bfs=[("A", 5, 2), ("D", 4, 2)], emit=[("A", 3, 2)],
                    sim=[("A", 12, 3, 1500, 24), ("D", 12, 3, 1500, 26)])
         run_republish(ctx)
